@@ -16,6 +16,7 @@ func init() {
 func runC09(c *Ctx) {
 	p := c.P
 	const P = "C09"
+	runC09MemberByNet(c, P)
 	c.rule(P, "gate", "dispatch reachable only across AuthResult.Allowed==true; denial edge sets MSG_DENIED and returns; dispatch has no other callers", 3)
 	c.rule(P, "order", "in ValidateAuthentication, Allowed=true is stored only past the allow-list and secure-port tests (ClientPort < 1024)", 2)
 	c.rule(P, "siblings", "auth.isIPAllowed and Server.isIPAllowed implement the same membership rule (feature-by-feature) or delegate", 10)
